@@ -2,7 +2,8 @@
 From Coq Require Import List ZArith String.
 Local Close Scope string_scope.
 Require Import Avro.Model.Base Avro.Model.Prim Avro.Model.Schema Avro.Model.Container.
-Require Import Avro.Proofs.ContainerP.
+Require Import Avro.Model.Writer.
+Require Import Avro.Proofs.ContainerP Avro.Proofs.FileP.
 Import ListNotations.
 Open Scope list_scope.
 Open Scope Z_scope.
@@ -72,6 +73,33 @@ Theorem C07_codec_entry : forall h,
      v <> b "null"%string -> v <> b "deflate"%string -> v <> b "snappy"%string -> header_codec h = None).
 Proof. exact header_codec_cases. Qed.
 Print Assumptions C07_codec_entry.
+
+(* a file produced by the library's own writer (header, then any history of
+   Encode/Flush calls closed by a flush, under any codec whose decompressor
+   inverts its compressor) is such a valid file: the header is recovered with
+   the schema, codec name and sync marker written, and every record appended is
+   delivered, in order, with success *)
+Theorem C07_written_file_reads_back : forall compress decompress,
+  (forall x, decompress (compress x) = Some x) ->
+  forall read_record sync, len sync = 16 ->
+  forall schema_json codec_name size ops fuel,
+  len schema_json < two63 -> len codec_name < two63 ->
+  Forall (rec_decodes read_record) (recs_of ops) ->
+  Forall (group_small compress) (fst (blocks_spec size [] (ops ++ [OpFlush]))) ->
+  (length (fst (blocks_spec size [] (ops ++ [OpFlush]))) < fuel)%nat ->
+  exists body,
+    read_header (concat (file_chunks compress schema_json codec_name sync size (ops ++ [OpFlush])))
+      = Some ({| h_meta := written_meta schema_json codec_name; h_sync := sync |}, body) /\
+    read_blocks decompress read_record (fun _ => None) fuel sync 0 body = (length (recs_of ops), FOk).
+Proof. exact file_roundtrip. Qed.
+Print Assumptions C07_written_file_reads_back.
+
+Theorem C07_header_roundtrip : forall schema_json codec_name sync rest,
+  len schema_json < two63 -> len codec_name < two63 -> len sync = 16 ->
+  read_header (header_bytes schema_json codec_name sync ++ rest)
+  = Some ({| h_meta := written_meta schema_json codec_name; h_sync := sync |}, rest).
+Proof. exact read_header_written. Qed.
+Print Assumptions C07_header_roundtrip.
 
 (* non-vacuity: a two-block body with a trivially decoding record format (one byte per record) *)
 Example C07_ex :
